@@ -427,3 +427,25 @@ Proof. exact Guard4Proofs.copy_indexes_pointer_only_guard_mutant_refuted. Qed.
 Theorem copy_indexes_shrunk_in_bounds : forall b index_num_edges edges_num_rows,
   0 <= edges_num_rows <= index_num_edges -> copy_indexes b index_num_edges edges_num_rows <> OOB.
 Proof. exact Guard4Proofs.copy_indexes_shrunk_in_bounds. Qed.
+
+(* MutationTable.keep_rows: the parent of every kept row — in particular every negative value
+   other than TSK_NULL — is refused before subset_remap_id_column indexes id_map with it *)
+Theorem guard_implies_in_bounds_mutation_keep_rows : forall id_map rows,
+  mutation_keep_rows true id_map rows <> OOB.
+Proof. exact Guard4Proofs.guard_implies_in_bounds_mutation_keep_rows. Qed.
+
+(* seeded change C09-11 *)
+Theorem mutation_keep_rows_negative_parent_mutant_refuted :
+  exists id_map rows, mutation_keep_rows false id_map rows = OOB.
+Proof. exact Guard4Proofs.mutation_keep_rows_negative_parent_mutant_refuted. Qed.
+
+(* deduplicate_sites: every mutations.site is validated (full integrity check) before
+   site_id_map is indexed with it *)
+Theorem guard_implies_in_bounds_deduplicate_sites : forall dups num_sites msite,
+  0 <= num_sites -> deduplicate_sites_entry true dups num_sites msite <> OOB.
+Proof. exact Guard4Proofs.guard_implies_in_bounds_deduplicate_sites. Qed.
+
+(* seeded change C09-12 *)
+Theorem deduplicate_sites_site_only_check_mutant_refuted :
+  exists num_sites msite, 0 <= num_sites /\ deduplicate_sites_entry false true num_sites msite = OOB.
+Proof. exact Guard4Proofs.deduplicate_sites_site_only_check_mutant_refuted. Qed.
